@@ -236,7 +236,9 @@ int main(int argc, char **argv) {
     if (((ygm::comm *)cm)->config.routing != ygm::detail::routing_type::NONE && g_p0 >= 10) memcpy(&g_hsize, ia->m_pdata + g_p0 - 10, 4);
   };
   ygm::verif::hooks.exec_end = [](void *, uint16_t, void *) { g_ar = nullptr; };
-  ygm::verif::hooks.originate = [](void *, int, int, size_t, size_t body) { g_last_body = body; };
+  // only what the main program itself appends: a broadcast stage forwarding inside a handler (which may run while this rank
+  // waits inside async) appends too
+  ygm::verif::hooks.originate = [](void *, int, int, size_t, size_t body) { if (!g_ar) g_last_body = body; };
 #endif
   ygm::comm world(&argc, &argv);
   rng.seed(seed * 1000 + world.rank());
@@ -250,6 +252,19 @@ int main(int argc, char **argv) {
       case 3: send<12>(world, dest, uid); break;
       case 4: send<13>(world, dest, uid); break;
       default: send<24>(world, dest, uid); break;
+    }
+  }
+  // broadcasts with stateful functors: the state and the arguments arrive on every rank (uids x*100000 + 50000 + i)
+  const int nb = count / 10;
+  for (int i = 0; i < nb; ++i) {
+    uint64_t uid = (uint64_t)world.rank() * 100000 + 50000 + i;
+    switch (i % 6) {
+      case 0: { fun<1> f;  for (size_t k = 0; k < 1; ++k)  f.st[k] = (unsigned char)(uid + 3 * k + 1);  world.async_bcast(f, uid, exp_s(uid), exp_v(uid)); break; }
+      case 1: { fun<4> f;  for (size_t k = 0; k < 4; ++k)  f.st[k] = (unsigned char)(uid + 3 * k + 4);  world.async_bcast(f, uid, exp_s(uid), exp_v(uid)); break; }
+      case 2: { fun<8> f;  for (size_t k = 0; k < 8; ++k)  f.st[k] = (unsigned char)(uid + 3 * k + 8);  world.async_bcast(f, uid, exp_s(uid), exp_v(uid)); break; }
+      case 3: { fun<12> f; for (size_t k = 0; k < 12; ++k) f.st[k] = (unsigned char)(uid + 3 * k + 12); world.async_bcast(f, uid, exp_s(uid), exp_v(uid)); break; }
+      case 4: { fun<13> f; for (size_t k = 0; k < 13; ++k) f.st[k] = (unsigned char)(uid + 3 * k + 13); world.async_bcast(f, uid, exp_s(uid), exp_v(uid)); break; }
+      default: { fun<24> f; for (size_t k = 0; k < 24; ++k) f.st[k] = (unsigned char)(uid + 3 * k + 24); world.async_bcast(f, uid, exp_s(uid), exp_v(uid)); break; }
     }
   }
   world.barrier();
